@@ -65,7 +65,12 @@ PieceAt(b, p, isKey) ==
         vo  == IF fits /\ isKey THEN Vu64At(b, after) ELSE NoVu
         nx  == IF vo.ok THEN Vu64At(b, vo.q) ELSE NoVu
         lnk == vo.ok /\ nx.ok /\ nx.q <= end
-    IN [stop |-> FALSE, off |-> p, size |-> size,
+        \* bytes the record needs from the start of its slot, whether or not they fit the slot
+        infile == l.ok /\ lenv >= 0 /\ l.q + lenv <= Len(b)
+        vo2 == IF infile /\ isKey THEN Vu64At(b, l.q + lenv) ELSE NoVu
+        nx2 == IF vo2.ok THEN Vu64At(b, vo2.q) ELSE NoVu
+        need == IF ~infile THEN -1 ELSE IF ~isKey THEN l.q + lenv - p ELSE IF nx2.ok THEN nx2.q - p ELSE -1
+    IN [stop |-> FALSE, off |-> p, size |-> size, need |-> need,
         fnext |-> IF isf THEN U64At(b, q + 1) ELSE -1,
         fpad  |-> isf /\ AllZero(b, q + 9, end),
         len   |-> IF fits THEN lenv ELSE -1,
@@ -120,6 +125,7 @@ SameSlots(js, fs) ==
     \A i \in 1..Len(js) :
         /\ js[i].off = fs[i].off /\ js[i].size = fs[i].size /\ js[i].fnext = fs[i].fnext /\ js[i].fpad = fs[i].fpad
         /\ js[i].len = fs[i].len /\ js[i].voff = fs[i].voff /\ js[i].nxt = fs[i].nxt /\ js[i].pad = fs[i].pad
+        /\ js[i].need = fs[i].need
 \* names of the fields on which the two decoders disagree
 FmtDiff(j, f) ==
     (IF j.n = f.n /\ j.cnt = f.cnt /\ j.hlen = f.hlen /\ j.heads_ok = f.heads_ok THEN {} ELSE {"TOOL.format_htx_header"})
